@@ -442,6 +442,12 @@ def unpack(I, v, n):
     if items is None:
         if n is None:
             raise OutsideSubset("unpacking a sequence of unknown length")
+        if is_v(v) and I.tag(v) == "tup":
+            # a symbolic tuple of the required arity: its components are the elements of its item sequence
+            raw = V.items(v)
+            if not I.st.decide(z3.Length(raw) == n, "unpack-len"):
+                I.raise_(ValueError, origin=("unpack",))
+            return [I.st.wf_read(z3.simplify(raw[i])) for i in range(n)]
         sq = iterate_seq(I, v)
         if not I.st.decide(sq.n == n, "unpack-len"):
             I.raise_(ValueError, origin=("unpack",))
